@@ -4,7 +4,7 @@
 D=$1
 S=/var/tmp/pgf-vs-$$
 rm -rf $S && mkdir -p $S && rsync -a --exclude .git /repo/ $S/
-sed "s#/tmp/seed2*/C[0-9]*\b#$S#g" $D/demo.py > $S/_demo.py
+sed -E "s#/tmp/seed[0-9]*/C[0-9]+\b#$S#g" $D/demo.py > $S/_demo.py
 (cd $S && timeout 900 /venv/bin/python _demo.py > /dev/null 2>&1); a=$?
 (cd $S && patch -p1 -s < $D/patch.diff) || { echo "patch failed"; rm -rf $S; exit 3; }
 (cd $S && timeout 900 /venv/bin/python _demo.py > $S/_demo.out 2>&1); b=$?
